@@ -11,6 +11,7 @@ CONSTANTS
   K1Kinds = {"none", "fx", "f-", "l", "s", "d"}
   K2Kinds = {"none", "fx", "f-", "l", "d"}
   PickedOnly = FALSE
+  PreAll = FALSE
 INVARIANTS
   TypeOK
   C10_EscapesRejected
